@@ -53,13 +53,19 @@ pub fn pparams(
     coins_per_byte: u64,
     with_cost_models: bool,
 ) -> tx3_cardano::PParams {
+    pparams_with(mainnet, a, b, coins_per_byte, if with_cost_models { &[0, 1, 2] } else { &[] })
+}
+
+/// Protocol parameters holding the cost models of the given Plutus versions only (0 = v1, 1 = v2, 2 = v3).
+pub fn pparams_with(mainnet: bool, a: u64, b: u64, coins_per_byte: u64, versions: &[u8]) -> tx3_cardano::PParams {
+    let with_cost_models = true;
     let mut cost_models = HashMap::new();
     if with_cost_models {
         // one cost model per Plutus version, all different (the language view of the script data hash depends on
         // which one is used)
-        cost_models.insert(0u8, COST_MODEL.to_vec());
-        cost_models.insert(1u8, COST_MODEL.iter().map(|x| x + 1).collect());
-        cost_models.insert(2u8, COST_MODEL.iter().map(|x| x + 2).collect());
+        for v in versions {
+            cost_models.insert(*v, COST_MODEL.iter().map(|x| x + *v as i64).collect());
+        }
     }
     tx3_cardano::PParams {
         network: if mainnet {
